@@ -24,28 +24,29 @@ type LoopSpec struct {
 }
 
 type FuncSpec struct {
-	Key       string // "Recv.Name", "Name", or "Recv.Name$1" for function literals
-	Requires  []Clause
-	Ensures   []Clause
-	Modifies  []ast.Expr
-	ModText   []string
-	Loops     map[int]*LoopSpec
-	InlLoops  map[string]*LoopSpec // invariants for loops of functions inlined into this one, keyed "callee.N"
-	Assumes   []Clause          // assumptions at entry (trusted, listed in evidence)
-	Inline    bool              // callers inline the body instead of using the contract
-	Trusted   bool              // body is not verified (external / assumed contract)
-	Pure      bool              // callee modifies nothing and the contract is a function of the args
-	AssumePre map[string]string // callee key suffix -> reason: preconditions of these callees are assumed here, not proved
-	TraceChans bool             // channel sends/receives of this function are recorded in the ghost trace (chansend/chanrecv)
-	Traced    bool              // every call is also recorded in the ghost call trace (method name = function name)
-	MayPanic  bool              // abstract callees may panic inside this function (exceptional paths are explored)
-	Params    []string          // for assumed contracts of functions without source: parameter names
-	Results   []string          // result names
-	Iter      *IterSpec         // canonical loop of a returned iterator
-	Sites     map[string]*LoopSpec // invariants for iterator call sites, keyed by callee name + ordinal
-	Ghost     []GhostDecl
-	File      string
-	Line      int
+	Key         string // "Recv.Name", "Name", or "Recv.Name$1" for function literals
+	Requires    []Clause
+	Ensures     []Clause
+	Modifies    []ast.Expr
+	ModText     []string
+	Loops       map[int]*LoopSpec
+	InlLoops    map[string]*LoopSpec // invariants for loops of functions inlined into this one, keyed "callee.N"
+	Assumes     []Clause             // assumptions at entry (trusted, listed in evidence)
+	Inline      bool                 // callers inline the body instead of using the contract
+	Trusted     bool                 // body is not verified (external / assumed contract)
+	Pure        bool                 // callee modifies nothing and the contract is a function of the args
+	AssumePre   map[string]string    // callee key suffix -> reason: preconditions of these callees are assumed here, not proved
+	TraceChans  bool                 // channel sends/receives of this function are recorded in the ghost trace (chansend/chanrecv)
+	Traced      bool                 // every call is also recorded in the ghost call trace (method name = function name)
+	MayPanic    bool                 // abstract callees may panic inside this function (exceptional paths are explored)
+	AllowUnsafe string               // reason why the unsafe string/slice views in this function are transient (not retained)
+	Params      []string             // for assumed contracts of functions without source: parameter names
+	Results     []string             // result names
+	Iter        *IterSpec            // canonical loop of a returned iterator
+	Sites       map[string]*LoopSpec // invariants for iterator call sites, keyed by callee name + ordinal
+	Ghost       []GhostDecl
+	File        string
+	Line        int
 }
 
 type IterSpec struct {
@@ -80,11 +81,11 @@ type ChanInv struct {
 
 type Contracts struct {
 	ChanInvs map[string]*ChanInv // "Type.field" -> message invariant of the channel stored there
-	Guards map[string]*Guard // struct type name -> fields guarded by a mutex field
-	Funcs map[string]*FuncSpec
-	Pures map[string]*PureFunc
-	Props map[string][]string // property id -> obligation name patterns (glob with *)
-	Files []string
+	Guards   map[string]*Guard   // struct type name -> fields guarded by a mutex field
+	Funcs    map[string]*FuncSpec
+	Pures    map[string]*PureFunc
+	Props    map[string][]string // property id -> obligation name patterns (glob with *)
+	Files    []string
 }
 
 var labelRe = regexp.MustCompile(`^([A-Za-z_][A-Za-z0-9_]*):\s+(.*)$`)
@@ -236,7 +237,7 @@ func parseSpecExpr(text string) (ast.Expr, error) {
 
 var clauseKeywords = map[string]bool{"func": true, "pure": true, "requires": true, "ensures": true, "modifies": true,
 	"invariant": true, "assume": true, "prop": true, "inline": true, "trusted": true, "iter": true, "site": true,
-	"ghost": true, "params": true, "results": true, "purefn": true, "opaque": true, "guarded": true, "maypanic": true, "traced": true, "assumepre": true, "step": true, "chanrecv": true, "chansend": true, "tracechans": true}
+	"ghost": true, "params": true, "results": true, "purefn": true, "opaque": true, "guarded": true, "maypanic": true, "traced": true, "assumepre": true, "step": true, "chanrecv": true, "chansend": true, "tracechans": true, "allowunsafe": true}
 
 func (c *Contracts) parseFile(path string) error {
 	data, err := os.ReadFile(path)
@@ -472,6 +473,11 @@ func (c *Contracts) parseFile(path string) error {
 				cur.Pure = true
 			case "maypanic":
 				cur.MayPanic = true
+			case "allowunsafe":
+				cur.AllowUnsafe = strings.TrimSpace(cl.rest)
+				if cur.AllowUnsafe == "" {
+					return fail(fmt.Errorf("allowunsafe needs a reason"))
+				}
 			case "traced":
 				cur.Traced = true
 			case "tracechans":
